@@ -8,9 +8,11 @@ from harness.core import coq_str, coq_list, coq_bool
 from harness.gen import ftree as T
 from harness.gen import c01lines as L
 from harness.impl import c01cascade as I
+from harness.impl import reader as RD
+from harness.impl import tree as TR
 
 IMPORTS = ("From Coq Require Import String.\nFrom Ford Require Import Base.Str Base.StrX Sem.Tree Sem.TypeSpec Sem.DeclSpec "
-           "Sem.CascadeTypes Sem.Cascade Sem.CascadeSpec Corr.C01 Corr.C01cascade.")
+           "Sem.CascadeTypes Sem.Cascade Sem.CascadeSpec Sem.CascadeTree Corr.C01 Corr.C01cascade.")
 THEOREMS = ["C01_cascade_tables", "C01_dispatch", "C01_dispatch_examples", "C01_dispatch_refuted_all_spellings",
             "C01_dispatch_witness_final", "C01_dispatch_witness_end_blockdata", "C01_dispatch_witness_labelled_end",
             "C01_assignment_refuted_interface"]
@@ -209,6 +211,10 @@ def line_is_placed(ctx, form):
     return True
 
 
+def is_open(chk, key):
+    return any(f["key"] == key and f.get("status", "open") == "open" for f in chk.findings)
+
+
 def run_slines(chk, P, n, stats, explore=False):
     """spelled statements of Sem/CascadeSpec.v: rendered by Coq, probed, judged"""
     rng = chk.rng
@@ -250,7 +256,8 @@ def run_slines(chk, P, n, stats, explore=False):
         region, bits = code // 4, code % 4
         if code != MALFORMED and bits == 0:
             continue
-        if code != MALFORMED and region in REGIONS and bits == 2 and chk.known(REGIONS[region], True):
+        if code != MALFORMED and region in REGIONS and bits == 2 and is_open(chk, REGIONS[region]):
+            # reported once by witnesses(); here only counted
             stats["known_spellings"] = stats.get("known_spellings", 0) + 1
             continue
         if code != MALFORMED and region == 9:
@@ -291,6 +298,41 @@ def witnesses(chk, P):
         chk.count(("witness", _), sample=None)
 
 
+def run_files(chk, n, stats):
+    """whole generated files: the logical lines the real reader delivers, through the text-level model
+    (classification + structure, Sem/CascadeTree.v), against the tree FORD builds"""
+    rng = chk.rng
+    terms, cases = [], []
+    for i in range(n):
+        cx = T.Ctx(rng, docs=rng.random() < 0.8, spell=rng.random() < 0.85, styles=rng.random() < 0.5,
+                   idcase=rng.random() < 0.5)
+        f = T.gen_file(cx, f"t{i % 7}.f90", [])
+        text = "\n".join(t for _, t in T.render_file(cx, f) if t is not None) + "\n"
+        if not core.is_ascii(text):
+            continue
+        res = TR.parse_text(text, f["name"])
+        rd = RD.run_reader(text.split("\n")[:-1])
+        if rd[0] != "ok":
+            continue
+        # the tree adapter drops empty documentation lines (see harness/impl/tree.py): drop them here too
+        lines = [l for l in rd[1] if not (l.startswith("!!") and l[2:].strip() == "")]
+        impl = f"inl ({T.tree_term(res[1])})" if res[0] == "ok" else "inr 1"
+        terms.append(f"({coq_str(f['name'])}, {coq_list(coq_str(l) for l in lines)}, {impl})")
+        cases.append((text, res[0]))
+        chk.count(("file-lines", text), nontrivial=len(lines) > 6, sample=None)
+    out = chk.coq_judge(IMPORTS, "str * list str * (ent + nat)", "judge_text", terms, shard=15)
+    if out is None:
+        return
+    chk.traces += len(cases)
+    stats["files"] = len(cases)
+    for idx, code in sorted(out.items()):
+        if code == UNMODELLED:
+            stats["files_unmodelled"] = stats.get("files_unmodelled", 0) + 1
+            continue
+        chk.violation("broken-correspondence", {"what": "text-level model (classification + structure) and FORD build "
+                      "different trees from the reader's lines", "text": cases[idx][0], "impl": cases[idx][1]}, False)
+
+
 def run_part(chk, explore=False):
     """everything except chk.translate / chk.build / chk.props"""
     rng = chk.rng
@@ -300,6 +342,7 @@ def run_part(chk, explore=False):
     try:
         witnesses(chk, P)
         run_slines(chk, P, 260 if quick else 8000, stats, explore)
+        run_files(chk, 24 if quick else 1500, stats)
         items = []
         fixed = [("KModule", False, 0), ("KType", True, 0), ("KInterface", False, 0), ("KFile", False, 0)]
         for line in CORPUS:
